@@ -139,7 +139,24 @@ fn corrupt(node: &spec::Node, j: &J, r: &mut Prng, depth: usize) -> Option<(J, &
                 }
             }
             let mut m2 = m.clone();
-            match r.below(3) {
+            match r.below(4) {
+                3 => {
+                    // two spellings of one key ("1" and "01" / "+1"): as many entries as minSize, one key fewer
+                    if let Some(mn) = min_size {
+                        if *mn >= 2 && m.len() >= *mn {
+                            while m2.len() > *mn {
+                                let k = m2.keys().next().unwrap().clone();
+                                m2.remove(&k);
+                            }
+                            let keys: Vec<String> = m2.keys().cloned().collect();
+                            let v2 = m2.remove(&keys[1]).unwrap();
+                            let alias = if r.chance(1, 2) { format!("0{}", keys[0]) } else { format!("+{}", keys[0]) };
+                            m2.insert(alias, v2);
+                            return Some((J::Object(m2), "map below minSize through two spellings of one key"));
+                        }
+                    }
+                    None
+                }
                 0 => {
                     if let Some(mx) = max_size {
                         let proto = m.values().next().cloned().unwrap_or_else(|| value_type.initial_value().to_json());
@@ -241,6 +258,65 @@ fn arbitrary(r: &mut Prng, depth: usize) -> J {
     }
 }
 
+/// targeted defect: the first resizable map (object form) with minSize >= 2 gets two spellings of one key
+fn alias_corrupt(node: &spec::Node, j: &J, r: &mut Prng) -> Option<J> {
+    match (node, j) {
+        (spec::Node::AnonMap { value_type, min_size, .. }, J::Object(m)) => {
+            if let Some(mn) = min_size {
+                if *mn >= 2 && m.len() >= *mn {
+                    let mut m2 = m.clone();
+                    while m2.len() > *mn {
+                        let k = m2.keys().next().unwrap().clone();
+                        m2.remove(&k);
+                    }
+                    let keys: Vec<String> = m2.keys().cloned().collect();
+                    let v2 = m2.remove(&keys[1]).unwrap();
+                    let alias = if r.chance(1, 2) { format!("0{}", keys[0]) } else { format!("+{}", keys[0]) };
+                    m2.insert(alias, v2);
+                    return Some(J::Object(m2));
+                }
+            }
+            for (k, v) in m.iter() {
+                if let Some(c) = alias_corrupt(value_type, v, r) {
+                    let mut m2 = m.clone();
+                    m2.insert(k.clone(), c);
+                    return Some(J::Object(m2));
+                }
+            }
+            None
+        }
+        (spec::Node::Sub { map }, J::Object(m)) => {
+            for (k, v) in m.iter() {
+                if let Some(c) = map.get(k).and_then(|n| alias_corrupt(n, v, r)) {
+                    let mut m2 = m.clone();
+                    m2.insert(k.clone(), c);
+                    return Some(J::Object(m2));
+                }
+            }
+            None
+        }
+        (spec::Node::Array { value_type, .. }, J::Array(l)) => {
+            for (i, v) in l.iter().enumerate() {
+                if let Some(c) = alias_corrupt(value_type, v, r) {
+                    let mut l2 = l.clone();
+                    l2[i] = c;
+                    return Some(J::Array(l2));
+                }
+            }
+            None
+        }
+        (spec::Node::Variant { map, .. }, J::Object(m)) => {
+            let (k, v) = m.iter().next()?;
+            let c = alias_corrupt(map.get(k)?, v, r)?;
+            let mut m2 = Map::new();
+            m2.insert(k.clone(), c);
+            Some(J::Object(m2))
+        }
+        (spec::Node::Optional { value_type, .. }, v) if !v.is_null() => alias_corrupt(value_type, v, r),
+        _ => None,
+    }
+}
+
 pub struct GuessCase {
     pub coq: String,
     pub json: serde_json::Value,
@@ -281,7 +357,15 @@ pub fn run_case(master: u64, idx: u64, profile: &str) -> GuessCase {
         0 => (arrays_for_maps(&spec.0, &canon, &mut r), 1, "conforming".into()),
         1 => {
             let mut got = None;
+            if r.chance(1, 5) {
+                if let Some(j) = alias_corrupt(&spec.0, &canon, &mut r) {
+                    got = Some((j, "map below minSize through two spellings of one key"));
+                }
+            }
             for _ in 0..10 {
+                if got.is_some() {
+                    break;
+                }
                 if let Some(x) = corrupt(&spec.0, &canon, &mut r, 0) {
                     got = Some(x);
                     break;
